@@ -6,6 +6,7 @@
 import FB.Wire
 import FB.Codec
 import FB.CreatedFiles
+import FB.BuildDirs
 import FB.Conc
 open FB FB.Wire
 open Lean (Json)
@@ -275,6 +276,51 @@ def runCF (j : Lean.Json) : Except String Lean.Json := do
         c := some st'
   return Json.mkObj [("outs", .arr outs)]
 
+def showPaths (l : List Path) : Lean.Json := .arr (l.map fun p => Lean.Json.str (showPath p)).toArray
+
+def showBD (b : FB.BuildDirs.BD) : Lean.Json :=
+  Json.mkObj [("counts", .arr (b.counts.map fun (d, n) => Lean.Json.arr #[.str (showPath d), .num (.fromNat n)]).toArray),
+    ("created", showPaths b.created), ("errorCreated", showPaths b.errorCreated), ("removedDirs", showPaths b.removedDirs),
+    ("existsDirs", showPaths b.existsDirs), ("maybeRemoved", showPaths b.maybeRemoved), ("removedFiles", showPaths b.removedFiles)]
+
+def getPaths (j : Lean.Json) : Except String (List Path) := do
+  (← j.getArr?).toList.mapM fun x => do pure (parsePath (← x.getStr?))
+
+/-- the `BuildDirs` data structure (`FB.BuildDirs`) over a fixed tree: run a command sequence, print every
+    state and return value -/
+def runBD (j : Lean.Json) : Except String Lean.Json := do
+  let fs ← parseTree (← j.getObjVal? "tree")
+  let oldDirs ← getPaths (← j.getObjVal? "oldDirs")
+  let oldFiles ← getPaths (← j.getObjVal? "oldFiles")
+  let cmds ← (← j.getObjVal? "cmds").getArr?
+  let mut b : Option FB.BuildDirs.BD := some (FB.BuildDirs.init oldDirs oldFiles)
+  let mut outs : Array Lean.Json := #[]
+  for cmd in cmds do
+    let a ← cmd.getArr?
+    let k ← (a[0]?.getD Lean.Json.null).getStr?
+    let p := parsePath (← (a[1]?.getD Lean.Json.null).getStr?)
+    match b with
+    | none => outs := outs.push (.str "dead")
+    | some st =>
+      match k with
+      | "isRemoved" =>
+        match FB.BuildDirs.isRemoved fs st p with
+        | none => outs := outs.push (.str "KeyError"); b := none
+        | some (st', r) => outs := outs.push (Json.mkObj [("state", showBD st'), ("ret", .bool r)]); b := some st'
+      | "exists" =>
+        let st' := FB.BuildDirs.handleDirExists st p
+        outs := outs.push (Json.mkObj [("state", showBD st'), ("ret", .null)]); b := some st'
+      | "started" =>
+        let cds ← getPaths (a[2]?.getD (Lean.Json.arr #[]))
+        let (st', locked) := FB.BuildDirs.started st p cds
+        outs := outs.push (Json.mkObj [("state", showBD st'), ("ret", showPaths locked)]); b := some st'
+      | "error" =>
+        match FB.BuildDirs.error st p with
+        | none => outs := outs.push (.str "KeyError"); b := none
+        | some st' => outs := outs.push (Json.mkObj [("state", showBD st'), ("ret", .null)]); b := some st'
+      | x => throw s!"bad bd command {x}"
+  return Json.mkObj [("outs", .arr outs)]
+
 def handle (line : String) : Lean.Json :=
   match Lean.Json.parse line with
   | .error e => Json.mkObj [("bad-op", .str e)]
@@ -287,6 +333,7 @@ def handle (line : String) : Lean.Json :=
       | "conc" => runConc j
       | "codec" => runCodec j
       | "cf" => runCF j
+      | "bd" => runBD j
       | k => throw s!"unknown kind {k}"
     match r with
     | .ok out => out.setObjVal! "id" id
